@@ -263,6 +263,9 @@ impl Crate {
         names.sort();
         for n in names {
             let Some(lean) = lean_type_name(n) else { continue };
+            if config::NO_SHAPE.contains(&n.as_str()) {
+                continue;
+            }
             if let Some(e) = self.enums.get(n) {
                 o.push_str(&format!("-- enum {} ({} variants)\n", n, e.variants.len()));
                 let mut arms = String::new();
@@ -472,7 +475,52 @@ impl Crate {
                 }
                 Ok(text)
             }
-            CItem::Closure { func, idx, lean, params, ret } => {
+            CItem::GenType { name } => {
+                let lean = lean_type_name(name).ok_or("unmapped generated type")?;
+                entry.insert("kind".into(), Json::S("type".into()));
+                entry.insert("rust".into(), Json::S(format!("enum {}", name)));
+                entry.insert("lean".into(), Json::S(lean.to_string()));
+                let e = self.enums.get(*name).ok_or_else(|| format!("enum {} not found", name))?;
+                let mut o = format!("/-- `enum {}`: no counterpart in the model; generated as it is declared -/\ninductive {} where\n", name, lean);
+                for v in &e.variants {
+                    let ctor = variant_ctor(Some(name), &v.ident.to_string()).ok_or_else(|| format!("variant {} is not listed", v.ident))?;
+                    let short = ctor.rsplit('.').next().unwrap().to_string();
+                    let mut args = String::new();
+                    match &v.fields {
+                        Fields::Unit => {}
+                        Fields::Unnamed(u) => {
+                            for (i, f) in u.unnamed.iter().enumerate() {
+                                args.push_str(&format!(" (x{} : {})", i, lean_type(&f.ty, Some(name))?));
+                            }
+                        }
+                        Fields::Named(_) => return Err("variant with named fields".into()),
+                    }
+                    o.push_str(&format!("  | {}{}\n", short, args));
+                }
+                Ok(o)
+            }
+            CItem::Parser { name } => {
+                let lname = format!("Semver.Gen.{}", name.replace("::", "_"));
+                entry.insert("kind".into(), Json::S("parser".into()));
+                entry.insert("rust".into(), Json::S(name.to_string()));
+                entry.insert("lean".into(), Json::S(lname.clone()));
+                let fs: Vec<&FnInfo> = self.fns.iter().filter(|f| f.qual == *name).collect();
+                if fs.len() != 1 {
+                    return Err(format!("expected exactly one function `{}`, found {}", name, fs.len()));
+                }
+                let f = fs[0];
+                entry.insert("file".into(), Json::S(f.file.clone()));
+                entry.insert("line".into(), Json::N(f.line as i64));
+                entry.insert("end_line".into(), Json::N(f.end_line as i64));
+                entry.insert("body_hash".into(), Json::S(f.hash.clone()));
+                let mut fx = Fx::new(self, None);
+                fx.register_closures(f);
+                let text = fx.parser_fn(f, &lname);
+                entry.insert("sites".into(), Json::A(fx.sites.iter().map(|s| s.json()).collect()));
+                entry.insert("calls".into(), Json::A(fx.calls.iter().map(|s| Json::S(s.clone())).collect()));
+                text
+            }
+            CItem::Closure { func, idx, lean, captures, params, ret } => {
                 entry.insert("kind".into(), Json::S("closure".into()));
                 entry.insert("rust".into(), Json::S(format!("{}#closure{}", func, idx)));
                 entry.insert("lean".into(), Json::S(lean.to_string()));
@@ -490,7 +538,7 @@ impl Crate {
                 entry.insert("closures_in_fn".into(), Json::N(cls.len() as i64));
                 let c = cls.get(*idx).ok_or_else(|| format!("`{}` has only {} closures", func, cls.len()))?;
                 let mut fx = Fx::new(self, None);
-                let text = fx.closure_item(c, lean, params, ret, func);
+                let text = fx.closure_item(c, lean, captures, params, ret, func);
                 entry.insert("sites".into(), Json::A(fx.sites.iter().map(|s| s.json()).collect()));
                 entry.insert("calls".into(), Json::A(fx.calls.iter().map(|s| Json::S(s.clone())).collect()));
                 text
@@ -751,4 +799,35 @@ pub fn expand_simple_macro(def: &proc_macro2::TokenStream, call: &proc_macro2::T
         }
     }
     Ok(files)
+}
+
+
+pub fn struct_field(struct_name: &str, field: &str) -> String {
+    if let Some((_, _, l)) = config::STRUCT_FIELDS.iter().find(|(s, f, _)| *s == struct_name && *f == field) {
+        return l.to_string();
+    }
+    lean_field(field)
+}
+
+/// is this the signature of a winnow parser of the crate: `(input: &mut &str) -> PResult<T, _>`?
+pub fn parser_output(sig: &Signature) -> Option<Type> {
+    if sig.inputs.len() != 1 {
+        return None;
+    }
+    let FnArg::Typed(pt) = &sig.inputs[0] else { return None };
+    if pt.ty.to_token_stream().to_string().replace(' ', "") != "&mut&'sstr" && pt.ty.to_token_stream().to_string().replace(' ', "") != "&mut&str" {
+        return None;
+    }
+    let ReturnType::Type(_, t) = &sig.output else { return None };
+    let Type::Path(p) = &**t else { return None };
+    let seg = p.path.segments.last()?;
+    if seg.ident != "PResult" {
+        return None;
+    }
+    if let PathArguments::AngleBracketed(a) = &seg.arguments {
+        if let Some(GenericArgument::Type(t)) = a.args.first() {
+            return Some(t.clone());
+        }
+    }
+    None
 }
